@@ -16,6 +16,10 @@ package omap
 //@ pred keyOnly(t *stree.Tree[stree.KV[T, U]]) := forall a stree.KV[T, U], b stree.KV[T, U] :: {rank(t.compare, a), rank(t.compare, b)} a.Key == b.Key ==> rank(t.compare, a) == rank(t.compare, b)
 //@ pred mapInv(m Map[T, U]) := m.m != nil ==> treeInv(m.m) && sizeInv(m.m) && keyOnly(m.m)
 //@
+//@ func New
+//@   ensures [C04] inv: result.m != nil && fresh(result.m) && mapInv(result)
+//@   ensures [C04] empty: card(result.m.elems) == 0
+//@
 //@ func NewFunc
 //@   role cf ord
 //@   ensures [C04] inv: result.m != nil && fresh(result.m) && mapInv(result)
